@@ -23,11 +23,11 @@ PATTERNS = [
 # f0 is shared by o0 and o0b (reads/writes only); clear/reset -- the accounting paths that save
 # without a load -- go to f1, which has a single object (lost updates between several objects
 # on one file are C06's subject, not the accounting's)
-SLOTS = ["write-o0", "write-long-o0", "write-o1", "write-o0b", "read-o0", "read-o0b", "clear-o1", "reset-o1", "read-o1", "nested-write-o0"]
+SLOTS = ["write-o0", "write-long-o0", "write-o1", "write-o0b", "read-o0", "read-o0b", "clear-o1", "reset-o1", "outside-o1", "read-o1", "nested-write-o0"]
 
 
 def nslots():
-    return 10 if hlib.TIER == "thorough" else 8
+    return 11 if hlib.TIER == "thorough" else 9
 
 
 def parts():
@@ -50,6 +50,46 @@ def prog(pi: int, s1: int, s2: int, s3: int, s4: int) -> bool:
     if pattern is None or None in sel:
         return finish(False, True)
     return ops.native(_run, env, fam, which, pattern, sel, (pi, s1, s2, s3, s4))
+
+
+def _slot(w, which, act, on, o, ref, val, state):
+    """One operation slot; returns a failure text for a wrong read, else None."""
+    if act == "write":
+        if which == "dict":
+            o[f"k{val}"] = val
+            ref[f"k{val}"] = val
+        else:
+            o.append(val)
+            ref.append(val)
+    elif act == "write-long":
+        big = "x" * 40
+        if which == "dict":
+            o["big"] = big
+            ref["big"] = big
+        else:
+            o.append(big)
+            ref.append(big)
+    elif act == "nested-write":
+        k = "a" if which == "dict" else 0
+        if isinstance(ref, (dict, list)) and ((which == "dict" and k in ref) or (which == "list" and len(ref) > 0)) and isinstance(ref[k], dict):
+            o[k][f"n{val}"] = val
+            ref[k][f"n{val}"] = val
+    elif act == "read":
+        got = o()
+        if not (state["outside"] and on == "o1") and not eq_plain(got, plain(ref)):
+            return f"{on}() returned {got!r}, reference {ref!r}"
+    elif act == "clear":
+        o.clear()
+        ref.clear()
+    elif act == "reset":
+        new = {"r": val} if which == "dict" else [val]
+        o.reset(copy_tree(new))
+        ref.clear()
+        if which == "dict":
+            ref.update(new)
+        else:
+            ref.extend(new)
+    return None
 
 
 def _run(env, fam, which, pattern, sel, args):
@@ -81,6 +121,18 @@ def _run(env, fam, which, pattern, sel, args):
             return f"after {after}: capacity is {cap}, the context discipline says {cur[0]}"
         return None
 
+    from synced_collections.errors import BufferedError, MetadataError
+
+    state = {"outside": False, "errored": False}
+
+    def legit(e):
+        """A flush may refuse to overwrite a file changed outside (C07): the accounting
+        must stay exact all the same."""
+        if state["outside"] and isinstance(e, (BufferedError, MetadataError)):
+            state["errored"] = True
+            return True
+        return False
+
     toks = pattern.split()
     flat = []
     for t in toks:
@@ -92,7 +144,7 @@ def _run(env, fam, which, pattern, sel, args):
         for t in flat:
             if t[0] == "B":
                 c = caps[t[1]]
-                w.enter_backend(c)
+                w.enter_backend(c)  # entering never flushes
                 saved.append(cur[0] if c is not None else None)
                 if c is not None:
                     cur[0] = c
@@ -102,11 +154,19 @@ def _run(env, fam, which, pattern, sel, args):
                 saved.append(None)
                 names.append("o0.buffered")
             elif t[0] == "C":
-                cls.set_buffer_capacity(caps[t[1]])
-                cur[0] = caps[t[1]]
                 names.append(f"set_capacity({t[1]})")
+                cur[0] = caps[t[1]]
+                try:
+                    cls.set_buffer_capacity(caps[t[1]])
+                except Exception as e:
+                    if not legit(e):
+                        raise
             elif t == "X":
-                kind, _ = w.exit_innermost()
+                try:
+                    kind, _ = w.exit_innermost()
+                except Exception as e:
+                    if not legit(e):
+                        raise
                 sv = saved.pop()
                 if sv is not None:
                     cur[0] = sv
@@ -123,48 +183,37 @@ def _run(env, fam, which, pattern, sel, args):
                     return finish(False, True)  # o0b would be in another buffering state than o0 (unsupported)
                 o = w.objs[on]
                 ref = w.ref[w.file_of[on]]
-                if act == "write":
-                    if which == "dict":
-                        o[f"k{val}"] = val
-                        ref[f"k{val}"] = val
-                    else:
-                        o.append(val)
-                        ref.append(val)
-                elif act == "write-long":
-                    big = "x" * 40
-                    if which == "dict":
-                        o["big"] = big
-                        ref["big"] = big
-                    else:
-                        o.append(big)
-                        ref.append(big)
-                elif act == "nested-write":
-                    k = "a" if which == "dict" else 0
-                    if isinstance(ref, (dict, list)) and ((which == "dict" and k in ref) or (which == "list" and len(ref) > 0)) and isinstance(ref[k], dict):
-                        o[k][f"n{val}"] = val
-                        ref[k][f"n{val}"] = val
-                elif act == "read":
-                    got = o()
-                    if not eq_plain(got, plain(ref)):
-                        return finish(True, fail(lambda: f"{cls.__name__} {names}: {on}() returned {got!r}, reference {ref!r}"))
-                elif act == "clear":
-                    o.clear()
-                    ref.clear()
-                elif act == "reset":
-                    new = {"r": val} if which == "dict" else [val]
-                    o.reset(copy_tree(new))
-                    ref.clear()
-                    if which == "dict":
-                        ref.update(new)
-                    else:
-                        ref.extend(new)
+                if act == "outside":
+                    env.write_doc(w.file_of[on], {"out": val} if which == "dict" else [val, "out"])
+                    state["outside"] = True
+                    continue
+                try:
+                    bad_read = _slot(w, which, act, on, o, ref, val, state)
+                except hlib.Crash:
+                    raise
+                except Exception as e:
+                    if not legit(e):
+                        raise
+                    bad_read = None
+                if bad_read:
+                    return finish(True, fail(lambda: f"{cls.__name__} {names}: {bad_read}"))
+                bad = check(names[-1])
+                if bad:
+                    if known(PID, {"family": fam.buffered, "what": bad.split(":")[1].split()[0]}, args):
+                        return finish(True, True)
+                    return finish(True, fail(lambda: f"{cls.__name__} {names}: {bad}"))
+                continue
             bad = check(names[-1])
             if bad:
                 if known(PID, {"family": fam.buffered, "what": bad.split(":")[1].split()[0]}, args):
                     return finish(True, True)
                 return finish(True, fail(lambda: f"{cls.__name__} {names}: {bad}"))
         while w.stack:
-            w.exit_innermost()
+            try:
+                w.exit_innermost()
+            except Exception as e:
+                if not legit(e):
+                    raise
             sv = saved.pop()
             if sv is not None:
                 cur[0] = sv
@@ -177,7 +226,9 @@ def _run(env, fam, which, pattern, sel, args):
     except Exception as e:
         return finish(True, fail(lambda: f"{cls.__name__} {names}: raised {e!r}"))
     case(cls.__name__, pattern, *names)
-    for fn in ("f0", "f1"):
+    if state["errored"]:
+        return finish(True, True)  # contents after a refused flush are C07's subject
+    for fn in (("f0",) if state["outside"] else ("f0", "f1")):
         good, got, want = w.file_ok(fn)
         if not good:
             return finish(True, fail(lambda: f"{cls.__name__} {names}: {fn} holds {got!r}, reference {want!r} (a forced flush must lose nothing)"))
@@ -186,16 +237,16 @@ def _run(env, fam, which, pattern, sel, args):
 
 def plan(tier):
     if tier == "quick":
-        return [{"fn": "prog", "nparts": 4 * 3, "timeout": 300}]
+        return [{"fn": "prog", "nparts": 4 * 5, "timeout": 300}]
     return [{"fn": "prog", "nparts": len(PARTS) * 15, "timeout": 2400}]
 
 
 def smoke(tier):
     out = []
-    for part in range(12):
-        for pi in range(5):
-            for s in range(0, 8, 3):
-                out.append(("prog", (pi, s, (s + 3) % 8, (s + 6) % 8, 0), part, 12))
+    for part in range(20):
+        for pi in range(3):
+            for s in range(0, 9, 2):
+                out.append(("prog", (pi, s, (s + 3) % 9, (s + 6) % 9, 0), part, 20))
     return out
 
 
@@ -214,4 +265,4 @@ FUNCTIONS = [
 BOUNDS = {"quick": {"classes": "BufferedJSON / MemoryBufferedJSON dict and list", "files": 2, "objects": 3, "patterns": PATTERNS, "capacities": {"S": 0, "T": 1, "L": "4 x default", "N": "not given"}, "slots": 3, "slot_operations": SLOTS[:8]},
           "thorough": {"classes": 8, "slots": 4, "slot_operations": SLOTS}}
 ASSUMPTIONS = ["the recomputation reads the class's own buffer entries (sum of len(contents) / number of modified entries): 'the observable buffered files' of the statement", "tiny capacities are 0 and 1 so that the model's size measure and real byte counts agree on every comparison with the capacity", "finite program space explored exhaustively through the solver's path tree; decided programs run natively"]
-OUTSIDE = ["capacities between 2 bytes and one document", "errors during a forced flush (C07 covers exit flushes)", "more than 3 (4) operations"]
+OUTSIDE = ["capacities between 2 bytes and one document", "more than 3 (4) operations"]
